@@ -193,7 +193,25 @@ def rule_live_rules(P):
             r.add(f, rule_loops[0], True, slots=dict(iterates=W.citer(f.node, rule_loops[0])))
         else:
             r.undecided(f, f.node, "rule loop not recognised", construct=f"{q}: rule loop")
-    r.min_instances = 5
+    # no method of CFG decides what to do with *this* grammar by looking at its memoised trimmed copy (cotrim is the only tabled user)
+    cfgc = P.cls("cfg.py", "CFG")
+    n_m = 0
+    for name, m in sorted(cfgc.methods.items()):
+        n_m += 1
+        for c in walk_live(m.node, into_nested=True):
+            if isinstance(c, ast.Call) and isinstance(c.func, ast.Attribute) and c.func.attr == "trim" and W.is_name(c.func.value, m.params[0] if m.params else "self"):
+                if name in ("cotrim",):
+                    r.add(m, c, True, slots=dict(reads="self.trim(...)", tabled="cotrim is trim(bottomup_only=True) by definition"), nontrivial=False)
+                    continue
+                par = parent(c)
+                returned = isinstance(par, ast.Return) or (isinstance(par, ast.Attribute) and isinstance(parent(par), ast.Call))
+                r.add(m, c, False, f"`{first_line(W.stmt_of(c))}` consults the memoised trimmed copy of the grammar it is transforming: `_trim_cache` is not reset by add(), "
+                      f"so the decision is taken on the rules the grammar had when trim() was first called - and dead rules, which the "
+                      f"transformation must still handle (they may mention the start symbol), are invisible to it",
+                      slots=dict(reads=norm(c), used_as="result" if returned else "iterable / test"))
+    if n_m < 40:
+        raise AnalysisError("LIVE-RULES: CFG methods not found")
+    r.min_instances = 6
     return r
 
 
@@ -521,6 +539,13 @@ def rule_factor_bytes(P):
                   construct="to_bytes multi-byte branch")
             r.add(f, ic, not problems, "; ".join(problems), construct="to_bytes: chain connectivity")
             groups = {k: v for k, v in groups.items() if k != "multi"}
+    for c in groups.get("eps", []):
+        extra = sorted(t for t in W.cfacts(f.node, c) if t not in (f"EPSILON == {a}", f"{a} == EPSILON"))
+        if extra:
+            r.add(f, c, False, f"ε arcs are copied only when {extra}: the others are dropped although they carry weight (an ε self-loop multiplies every "
+                  f"path through its state by star(w) in a non-idempotent semiring)", construct="to_bytes: ε arcs copied")
+        else:
+            r.add(f, c, True, construct="to_bytes: ε arcs copied", nontrivial=False)
     for key, cs in groups.items():
         ws = [norm(c.args[3]) for c in cs]
         if key in ("eps", "single"):
@@ -601,6 +626,44 @@ def rule_accum_delta(P):
                    "each emitted rule carries delta · r.w and the suffix r.body[k+1:]", "derivative weights: product of the skipped null weights")
     f = P.func("cfg.py::CFG.derivative")
     r.looked_at(f)
+    # every slash symbol of one derivative carries the level index `i` the caller asked for
+    lvl = f.params[2] if len(f.params) > 2 else None
+    n_slash = 0
+    if lvl is not None:
+        for c in walk_live(f.node, into_nested=True):
+            if not isinstance(c, ast.Call) or not isinstance(c.func, ast.Name):
+                continue
+            nm = c.func.id
+            tgt = None
+            if nm == "Slash":
+                tgt = ("ctor", ["Y", "Z", "i"])
+            else:
+                nested = [g for g in P.funcs.values() if g.outer is f and g.name == nm]
+                modf = P.funcs.get(f"cfg.py::{nm}")
+                g = nested[0] if nested else modf
+                if g is not None and any(isinstance(x, ast.Call) and W.call_name(x) == "Slash" for x in ast.walk(g.node)):
+                    if nested:
+                        continue  # a closure: it reads the enclosing `i` itself (its own Slash(...) call is checked as a ctor)
+                    tgt = ("helper", list(g.params))
+            if tgt is None:
+                continue
+            n_slash += 1
+            params = tgt[1]
+            lv_param = params[2] if tgt[0] == "ctor" else next((p_ for p_ in params if p_ in ("i", lvl, "level", "idx")), None)
+            passed = None
+            if lv_param is not None:
+                idx = params.index(lv_param)
+                if len(c.args) > idx:
+                    passed = c.args[idx]
+                for kw in c.keywords:
+                    if kw.arg == lv_param:
+                        passed = kw.value
+            ok = passed is not None and W.is_name(passed, lvl)
+            r.add(f, c, ok, "" if ok else f"`{norm(c)}` does not carry the level index `{lvl}` of this derivative ({'it falls back to the default' if passed is None else 'it passes ' + norm(passed)}): "
+                  f"for {lvl} != 0 the rule body points at a level-0 symbol that has no rules here, so every derivation through a leftmost "
+                  f"nonterminal is lost", construct=f"derivative: level index of {norm(c)}", nontrivial=not ok)
+        if n_slash == 0:
+            r.undecided(f, f.node, "no Slash(...) construction found in derivative", construct="derivative: level index")
     u = None
     for n in walk_live(f.node):
         if isinstance(n, ast.Assign) and isinstance(n.value, ast.Call) and W.call_name(n.value) == "null_weight":
